@@ -17,9 +17,12 @@ closure `g` if one is in scope, so the final state is observed.
 Fragment restrictions (DESIGN.md section 5), enforced by construction and re-checked by `check_fragment`:
   * well-scoped: a variable is only mentioned where a declaration is visible; names fix the type
     (x y a b e n j k p: Int, l: List<Int>, s: String, g: closure);
-  * sibling operands (operands of a binary operator, call arguments, list/tuple elements, method
-    receiver + arguments): at most one is effectful (calls a user function or closure, divides,
-    `or_throw`s), so the order of evaluation cannot be observed;
+  * sibling call arguments, list/tuple elements and method receiver + arguments: at most one is effectful
+    (calls a user function or closure, divides, `or_throw`s), so their order of evaluation cannot be
+    observed.  Binary operators are different: they are read, documented and implemented left operand first
+    (confirmed for every operator on the unchanged tree), so the grammar also has `noisy(1) OP noisy(2)` for
+    every operator of the fragment, where the fixed helper `fun noisy(n) { println(string_repr(n)) n }`
+    (emitted when used, not counted) makes the order of the two operands observable;
   * a closure body never assigns a captured variable; a captured variable is neither assigned nor
     redeclared while the closure is in scope; closures are not nested and do not call themselves;
   * an operand that is itself a binary operation is parenthesised;
@@ -29,13 +32,35 @@ Fragment restrictions (DESIGN.md section 5), enforced by construction and re-che
 """
 from collections import namedtuple
 
-Ctx = namedtuple("Ctx", "ints l s g frozen own in_loop fn funs rec depth")
+Ctx = namedtuple("Ctx", "ints l s g frozen own in_loop fn funs rec depth bv", defaults=(False,))
 
 WHILE_BOUND = 3
 MAX_BLOCK = 3
 MAX_TOP = 3
 GROUPS = ((), ("f",), ("h",), ("f", "h"))      # which functions a program defines
-TRACKED = frozenset(["f", "h", "Red", "Cust"])
+TRACKED = frozenset(["f", "h", "Red", "Cust", "noisy"])
+
+# Binary operators with an observable effect in BOTH operands (cost 3 each wherever they appear).
+NOISY_INT_OPS = ("+", "-", "*", "/", "%", "**")
+NOISY_CMP_OPS = ("<", "<=", ">", ">=", "==", "!=")
+NOISY_BOOL_OPS = ("&&", "||")
+NOISY_COST = 3
+NOISY_ITEM = ("Fun", "noisy", False, None, [], [("n", None)], None,
+              [("Call", ("Var", "println"), [("Call", ("Var", "string_repr"), [("Var", "n")])]), ("Var", "n")])
+
+
+def noisy_int_exprs():
+    return [(B(call("noisy", I(1)), op, call("noisy", I(2))), NOISY_COST) for op in NOISY_INT_OPS]
+
+
+def noisy_bool_exprs():
+    out = [(B(call("noisy", I(1)), op, call("noisy", I(2))), NOISY_COST) for op in NOISY_CMP_OPS]
+    out += [(B(B(call("noisy", I(1)), "==", I(1)), op, B(call("noisy", I(2)), "==", I(1))), NOISY_COST) for op in NOISY_BOOL_OPS]
+    return out
+
+
+def noisy_str_expr():
+    return B(call("string_repr", call("noisy", I(1))), "^", call("string_repr", call("noisy", I(2))))
 
 
 def V(n): return ("Var", n)
@@ -93,6 +118,9 @@ def calls(c):
         if "f" in c.funs:          # one effectful argument, the other side-effect free
             out.append((call("h", call("f", a0), a1), 3))
             out.append((call("h", a1, call("f", a0)), 3))
+    if "f" in c.funs:              # an argument whose two operands both print (still a single effectful argument)
+        for e, ce in noisy_int_exprs():
+            out.append((call("f", e), ce))
     if c.rec:
         dec = B(V("a"), "-", I(1))
         out.append((call("f", dec) if c.fn == "f" else call("h", dec, V("b")), 1))
@@ -108,6 +136,7 @@ def int_exprs(c):
             out.append((B(v, "+", V(c.ints[1])), 2))
         out.append((B(I(6), "/", B(v, "-", I(1))), 2))
     out += calls(c)
+    out += noisy_int_exprs()
     if c.l:
         a0 = atoms(c)[0][0]
         out.append((mcall(V("l"), "len"), 2))
@@ -154,6 +183,7 @@ def bool_exprs(c):
         if e[1] not in seen:
             seen.add(e[1])
             out.append((B(e, "<", I(2)), 1 + ce))
+    out += noisy_bool_exprs()
     return out
 
 
@@ -169,6 +199,8 @@ def print_exprs(c):
     out.append((("List", [a0, I(1)]), 3))
     out.append((call("Some", a0), 3))
     out.append((bool_exprs(c)[0][0], 3))
+    out += noisy_bool_exprs()
+    out.append((noisy_str_expr(), NOISY_COST))
     return out
 
 
@@ -338,6 +370,10 @@ class Gen:
                 add(("Let", ("Sym", name), None, e), 1 + cn + ce, declare_int(c, name))
         if "x" not in c.frozen and "y" not in c.frozen:
             add(("Let", ("Destructure", ["x", "y"]), None, ("Tuple", [a0, a1])), 3, declare_int(declare_int(c, "x"), "y"))
+        for e, ce in noisy_bool_exprs():       # a Bool variable, only ever printed by the epilogue
+            add(("Let", ("Sym", "c"), None, e), 1 + ce, declare_other(c, bv=True))
+        if "s" not in c.frozen:
+            add(("Let", ("Sym", "s"), None, noisy_str_expr()), 1 + NOISY_COST, declare_other(c, s=True))
         # ---- assignment
         k = 0
         for v in [v for v in c.ints if assignable(c, v)][:2]:
@@ -486,6 +522,7 @@ class Gen:
             tops.sort(key=lambda t: t[1])
             for defs, cd, used_defs in defs_list:
                 enum_in_defs = any(n in ("Red", "Cust") for _f, n in used_defs)
+                noisy_in_defs = any(n == "noisy" for _f, n in used_defs)
                 for stmts, cs, c_after, names in tops:
                     if cs > budget - cd:
                         break
@@ -498,6 +535,8 @@ class Gen:
                         continue
                     body = [("Expr", s) for s in stmts] + [("Expr", e) for e in epilogue(c_after)]
                     items = defs + body
+                    if noisy_in_defs or "noisy" in names:
+                        items = [NOISY_ITEM] + items
                     if enum_in_defs or "Red" in names or "Cust" in names:
                         items = [enum_item] + items
                     yield items, cd + cs
@@ -518,6 +557,8 @@ def epilogue(c):
         out.append(P(V("l")))
     if c.s:
         out.append(P(V("s")))
+    if c.bv:
+        out.append(P(V("c")))
     if c.g is not None:
         out.append(P(call("g", I(1))))
     return out
@@ -535,7 +576,7 @@ USER_CALLABLES = ("f", "h", "g")
 def effectful(e):
     k = e[0]
     if k == "Call":
-        return e[1] in (V("f"), V("h"), V("g")) or any(effectful(a) for a in e[2])
+        return e[1] in (V("f"), V("h"), V("g"), V("noisy")) or any(effectful(a) for a in e[2])
     if k == "MethodCall":
         return e[2] == "or_throw" or effectful(e[1]) or any(effectful(a) for a in e[3])
     if k == "Bin":
@@ -577,8 +618,7 @@ def check_fragment(items):
                 if x[0] == "Bin":
                     raise FragmentError("unparenthesised operator chain")
                 expr(x, sc, st)
-            siblings([e[1], e[3]])
-            return
+            return          # binary operators evaluate left operand first: both may be effectful
         if k == "Call":
             expr(e[1], sc, st)
             for a in e[2]:
